@@ -6,46 +6,90 @@ import SpowtdModel.Lemmas.LoadA
 namespace Spowtd
 variable {α : Type} [Num α]
 
+omit [Num α] in
 /-- The core of the grid is exactly the rainfall timestamps lying within the span of the
     water-level record. -/
 theorem gridCore_mem (rain level : List (Int × α)) (e : Int) :
     e ∈ gridCore rain level ↔
       (∃ v, (e, v) ∈ rain) ∧ (∃ z ∈ level, z.1 ≤ e) ∧ (∃ z ∈ level, e ≤ z.1) := by
-  sorry
+  exact gridCore_mem_iff rain level e
 
 /-- The grid is that core plus one closing instant one step after its last element. -/
 theorem grid_members (f : Files α) (d : Loaded α) (h : load f false = .ok d) :
     d.grid.map (·.1) = gridCore f.rain f.level ++ [(gridCore f.rain f.level).getLastD 0 + d.step] ∧
     2 ≤ (gridCore f.rain f.level).length := by
-  sorry
+  obtain ⟨_, _, h3, _, h5⟩ := load_ok_inv h
+  exact ⟨load_ok_grid_fst h, stepOf_length h3⟩
 
 /-- The grid is uniformly spaced with a positive step. -/
 theorem grid_uniform (f : Files α) (d : Loaded α) (h : load f false = .ok d) :
     0 < d.step ∧ steppedB d.step (d.grid.map (·.1)) = true ∧ increasingB (d.grid.map (·.1)) = true := by
-  sorry
+  obtain ⟨_, h2, h3, _, h5⟩ := load_ok_inv h
+  have := grid_facts f d.step ((dupCheck_eq_false_iff f).mp h2).1 h3
+  rw [load_ok_grid_fst h]
+  exact this
 
 /-- Rainfall (and likewise evapotranspiration) on a grid step `[a, a + step)` is the source value
     read for `a`; there is one row per non-closing grid instant and nothing else. -/
 theorem rain_et_copied (f : Files α) (d : Loaded α) (h : load f false = .ok d) (a b : Int) (v : α) :
     ((a, b, v) ∈ d.rain ↔ a ∈ gridCore f.rain f.level ∧ b = a + d.step ∧ (a, v) ∈ f.rain) ∧
     ((a, b, v) ∈ d.et ↔ a ∈ gridCore f.rain f.level ∧ b = a + d.step ∧ (a, v) ∈ f.et) := by
-  sorry
+  obtain ⟨_, h2, _, _, h5⟩ := load_ok_inv h
+  obtain ⟨hnr, hne, _⟩ := (dupCheck_eq_false_iff f).mp h2
+  have hr : d.rain = copyRows (gridCore f.rain f.level) d.step f.rain := by rw [h5]; rfl
+  have he : d.et = copyRows (gridCore f.rain f.level) d.step f.et := by rw [h5]; rfl
+  rw [hr, he]
+  exact ⟨mem_copyRows hnr, mem_copyRows hne⟩
 
 /-- Every grid instant, the closing one included, has an evapotranspiration source row. -/
 theorem et_complete (f : Files α) (d : Loaded α) (h : load f false = .ok d) (g : Int)
     (hg : g ∈ d.grid.map (·.1)) : ∃ v, (g, v) ∈ f.et := by
-  sorry
+  obtain ⟨_, _, _, h4, h5⟩ := load_ok_inv h
+  rw [load_ok_grid_fst h] at hg
+  exact (etCheck_iff f d.step).mp h4 g hg
 
 /-- The result does not depend on the order of the rows in the three files. -/
 theorem row_order_irrelevant (f f' : Files α) (pop : Bool)
     (hr : f.rain.Perm f'.rain) (he : f.et.Perm f'.et) (hz : f.level.Perm f'.level) :
     load f pop = load f' pop := by
-  sorry
+  exact load_perm f f' pop hr he hz
 
 /-- What classification relies on (hypothesis of `classify_total`) is established by `load`
     whenever at least one water level fell on the grid. -/
 theorem load_establishes_wf (f : Files α) (d : Loaded α) (h : load f false = .ok d)
-    (hne : d.level ≠ []) : wellFormedLoadedB d = true := by
-  sorry
+    (hne : d.level ≠ []) : wellFormedLoadedB d = true :=
+  load_wf h hne
+
+/-! ### non-vacuity: a record with a gap in the water levels, rows out of order, is accepted -/
+
+private def exRows (l : List Int) : List (Int × Rat) := l.map (fun e => (e, 1))
+
+/-- rainfall every 600 s (rows shuffled), levels at 0, 600, 2400, 3000: a gap from 600 to 2400 -/
+private def exFiles : Files Rat :=
+  { rain := exRows [1800, 0, 600, 1200, 2400, 3000]
+    et := exRows [0, 600, 1200, 1800, 2400, 3000, 3600]
+    level := exRows [3000, 0, 600, 2400] }
+
+private theorem exFiles_check :
+    okAnd (load exFiles false) (fun d => d.step == 600 &&
+         d.grid == [(0, some 1), (600, some 1), (1200, none), (1800, none), (2400, some 2),
+           (3000, some 2), (3600, some 2)] &&
+         d.rain.map (·.1) == [0, 600, 1200, 1800, 2400, 3000] &&
+         d.level.map (·.1) == [0, 600, 2400, 3000] && !d.level.isEmpty &&
+         labelsOf d == [1, 2] && wellFormedLoadedB d) = true := by decide
+
+/-- the hypotheses of `grid_members`, `grid_uniform`, `rain_et_copied`, `et_complete` and
+    `load_establishes_wf` are satisfiable -/
+example : ∃ d, load exFiles false = .ok d ∧ d.level ≠ [] := by
+  obtain ⟨d, hd, hP⟩ := exists_ok_of_okAnd exFiles_check
+  refine ⟨d, hd, ?_⟩
+  simp only [Bool.and_eq_true, Bool.not_eq_true', List.isEmpty_eq_false_iff] at hP
+  exact hP.1.1.2
+
+example : gridCore exFiles.rain exFiles.level = [0, 600, 1200, 1800, 2400, 3000] := by decide
+
+/-- `row_order_irrelevant` applies to a genuinely different row order -/
+example : exFiles.rain.Perm (exRows [0, 600, 1200, 1800, 2400, 3000]) ∧
+    exFiles.rain ≠ exRows [0, 600, 1200, 1800, 2400, 3000] := by decide
 
 end Spowtd
